@@ -1,36 +1,54 @@
 """Labelled transition graph from a TLC dump and a greedy transition tour."""
 import collections
 import json
+import re
+
+
+_STR = re.compile(r'"((?:[^"\\]|\\.)*)"')
 
 
 class Graph:
-    def __init__(self, tr):
-        """tr: list of dicts {s, e, t, l} as printed by the spec's Dump."""
+    def __init__(self, lines):
+        """lines: raw `<<"TR", "<json view>", "<json ev'>", "<json view'>", level>>`
+        lines printed by the spec's DumpL.  States are kept as opaque strings
+        (parsed lazily by state()); only the event records are parsed."""
         self.ids = {}
-        self.states = []
+        self._raw = []
+        self._parsed = {}
         self.edges = []          # (s, evdict, t)
         self.out = collections.defaultdict(list)
         self.inits = []
         seen = set()
-        for rec in tr:
-            s = self._id(rec["s"])
-            t = self._id(rec["t"])
-            key = (s, json.dumps(rec["e"], sort_keys=True), t)
+        for line in lines:
+            parts = _STR.findall(line)
+            if len(parts) != 4:
+                continue
+            _, s_raw, e_raw, t_raw = parts
+            level = int(line[line.rindex(",") + 1:line.rindex(">>")])
+            s = self._id(s_raw)
+            t = self._id(t_raw)
+            key = (s, e_raw, t)
             if key in seen:
                 continue
             seen.add(key)
-            if rec.get("l") == 1 and s not in self.inits:
+            if level == 1 and s not in self.inits:
                 self.inits.append(s)
             self.out[s].append(len(self.edges))
-            self.edges.append((s, rec["e"], t))
+            self.edges.append((s, json.loads(json.loads('"' + e_raw + '"')), t))
+        self.states = _LazyStates(self)
 
-    def _id(self, st):
-        k = json.dumps(st, sort_keys=True)
-        i = self.ids.get(k)
+    def _id(self, raw):
+        i = self.ids.get(raw)
         if i is None:
-            i = self.ids[k] = len(self.states)
-            self.states.append(st)
+            i = self.ids[raw] = len(self._raw)
+            self._raw.append(raw)
         return i
+
+    def state(self, i):
+        st = self._parsed.get(i)
+        if st is None:
+            st = self._parsed[i] = json.loads(json.loads('"' + self._raw[i] + '"'))
+        return st
 
     def bfs_parents(self):
         par = {s: None for s in self.inits}
@@ -118,3 +136,14 @@ class Graph:
                     pend[t].pop()
                 q.append((t, path + [ei]))
         return None
+
+
+class _LazyStates:
+    def __init__(self, g):
+        self.g = g
+
+    def __getitem__(self, i):
+        return self.g.state(i)
+
+    def __len__(self):
+        return len(self.g._raw)
